@@ -264,6 +264,9 @@ def fieldOfC : Value → String → Option Value
     READ through `*`: only `read_volatile` / `write` (part A) access it. -/
 def derefC (_ : Inputs) : Value → St → Option Res
   | .ext "ptr:ClockErrorBound" [.str "ceb"], st => some (.val ptrCeb st)
+  -- `*header` with `header` the typed pointer to the mapped header, as the base of a field place
+  -- (`(*header).version`): the header itself; its fields are the cells (`fieldOfC`)
+  | .ext "ptr:ShmHeader" [], st => some (.val (.ext "ptr:ShmHeader" []) st)
   | _, _ => none
 
 /-- * `syserror!(origin)` (lib.rs): `Err(ShmError::SyscallError(errno::errno(), origin))`; `errno()` is
